@@ -1,6 +1,7 @@
 package main
 
 import (
+	"go/types"
 	"fmt"
 	"os"
 	"sort"
@@ -178,7 +179,12 @@ func (w *Walker) correlatedConds(c *FCtx) []*Atom {
 		if (pos.Pred != "eq" && pos.Pred != "truth") || count[pos.Key()] >= 2 || count[pos.Key()] == 0 {
 			continue
 		}
-		if !diamondWithPhi(b) || pos.Mentions(func(t *Term) bool { return t.Op == "phi" || t.Op == "unk" || isSelectIndex(t) }) {
+		if pos.Mentions(func(t *Term) bool { return t.Op == "phi" || t.Op == "unk" || isSelectIndex(t) }) {
+			continue
+		}
+		// ... or whose arms make different calls before rejoining, decided by a nil-test of a helper's result
+		// (if x := choose(..); x != nil { validate one way } else { validate the other way })
+		if !diamondWithPhi(b) && !(isNilTestOfCall(pos) && isPointerTest(ifi.Cond) && diamondWithCalls(b)) {
 			continue
 		}
 		res = append(res, first[pos.Key()])
@@ -492,6 +498,75 @@ func diamondWithPhi(b *ssa.BasicBlock) bool {
 	return false
 }
 
+
+func isNilTestOfCall(a *Atom) bool {
+	if a.Pred != "eq" || len(a.Args) != 2 {
+		return false
+	}
+	x, y := a.Args[0], a.Args[1]
+	if x.Key() == tNil.Key() {
+		x, y = y, x
+	}
+	return y.Key() == tNil.Key() && x.Op == "call"
+}
+
+// diamondWithCalls: both arms of the If at the end of b rejoin and each arm calls something (other than logging) before the join.
+func diamondWithCalls(b *ssa.BasicBlock) bool {
+	if len(b.Succs) != 2 {
+		return false
+	}
+	reach := func(from *ssa.BasicBlock) map[*ssa.BasicBlock]bool {
+		seen := map[*ssa.BasicBlock]bool{}
+		stack := []*ssa.BasicBlock{from}
+		for len(stack) > 0 {
+			n := stack[len(stack)-1]
+			stack = stack[:len(stack)-1]
+			if seen[n] || n == b {
+				continue
+			}
+			seen[n] = true
+			stack = append(stack, n.Succs...)
+		}
+		return seen
+	}
+	r0, r1 := reach(b.Succs[0]), reach(b.Succs[1])
+	joined := false
+	for j := range r0 {
+		if r1[j] {
+			joined = true
+		}
+	}
+	if !joined {
+		return false
+	}
+	only := func(r, other map[*ssa.BasicBlock]bool) bool {
+		for j := range r {
+			if other[j] {
+				continue
+			}
+			for _, in := range j.Instrs {
+				c, ok := in.(ssa.CallInstruction)
+				if !ok {
+					continue
+				}
+				if !isLoggingCall(c.Common()) && (c.Common().IsInvoke() || c.Common().StaticCallee() != nil) {
+					return true
+				}
+			}
+		}
+		return false
+	}
+	return only(r0, r1) && only(r1, r0)
+}
+
+func isPointerTest(v ssa.Value) bool {
+	bo, ok := v.(*ssa.BinOp)
+	if !ok {
+		return false
+	}
+	_, isPtr := bo.X.Type().Underlying().(*types.Pointer)
+	return isPtr
+}
 
 func isSelectIndex(t *Term) bool {
 	return t.Op == "ext" && t.Name == "0" && len(t.Args) == 1 && t.Args[0].Op == "select"
